@@ -14,6 +14,7 @@ from simkit import env as simenv
 from simkit import xmlref
 from simkit.kernel import HarnessError, Violation
 from engines import docsim as ds
+from engines import doc_styles
 
 EXT = {"text": ".odt", "spreadsheet": ".ods", "presentation": ".odp", "drawing": ".odg", "graphics": ".odg"}
 IMG1 = "/repo/tests/samples/image.png"
@@ -65,6 +66,9 @@ class DocEngine:
         self.n_reopen = 0
         self.n_edits = 0
         self.n_faults = 0
+        self.other = None  # C13: a second document (merge source)
+        self.c13_inserted = []
+        self.c13_latest = {}
         self.shadow = None  # the original left behind by clone_swap
         self.twin = None  # C10: (DocSUT) the other twin
         self.n_twin_ops = 0
@@ -131,6 +135,10 @@ class DocEngine:
             if self.twin is None and rng.chance(self.cfg.get("p_clone", 0.45), "clone?"):
                 return {"op": "clone_doc"}
             weights += [("clone_part", 2), ("clone_container", 1), ("twin_save_over_source", 1.5 if (self.twin is not None and self.sut.src.get("path") and self.sut.src["packaging"] == "zip") else 0)]
+        if self.prop == "C13":
+            weights = [("ins_style", 9), ("ins_style_other", 3 if self.other is not None else 0), ("open_other", 1.5 if self.other is None else 0.3),
+                       ("merge", 2.5 if self.other is not None else 0), ("page_break_style", 1), ("table_displayed", 1 if self._doc_type() == "spreadsheet" else 0),
+                       ("relookup", 2), ("touch", 1), ("edit", 1), ("save", 2.5 if self.n_saves < cfg["max_saves"] else 0), ("reopen", 3 if self._reopenable() else 0)]
         if self.prop == "C11":
             weights = [("touch", 10 * cfg["p_touch"]), ("edit", 3), ("rich_para", 6), ("add_file", 1), ("save_set", 10 * cfg["p_save"] if self.n_saves < cfg["max_saves"] else 0),
                        ("reopen", (3 * cfg["p_reopen"]) if self._reopenable() else 0)]
@@ -196,6 +204,15 @@ class DocEngine:
             op["variants"] = [{"packaging": pk, "pretty": pr, "target": ("bytesio" if pk != "folder" and rng.chance(0.5, "vt") else "path")} for pk, pr in rng.sample(variants, k, "variants")]
             if rng.chance(self.cfg["p_fault"], "fault?"):
                 op["fault"] = {"site": rng.choice(["writestr", "write_bytes", "bytesio_write", "mkdir", "rmtree"], "fsite"), "k": rng.randint(1, 10, "fk"), "errno": rng.choice(["ENOSPC", "EIO"], "ferr"), "partial": rng.chance(0.5, "fpartial"), "at": rng.randint(0, k - 1, "fat")}
+        elif name in ("ins_style", "ins_style_other"):
+            op = doc_styles.gen_insert(self, rng, n, "main" if name == "ins_style" else "other")
+            op["op"] = name
+            if dt:
+                op["dt"] = dt
+        elif name == "open_other":
+            op["source"] = rng.choice(["template:text", "template:spreadsheet", "sample:lpod_styles.odt", "sample:span_style.odt", "sample:example.odt", "sample:styled_table.ods", "sample:example.odp"], "osrc")
+        elif name == "table_displayed":
+            op["displayed"] = rng.chance(0.5, "disp")
         elif name == "set_part_many":
             op["k"] = rng.choice([2, 5, 12, 16, 20, 30], "many_k")
             op["n"] = n
@@ -288,7 +305,7 @@ class DocEngine:
             s["existing"] = rng.choice(idx, "existing")
         if s["target"] in ("existing", "inplace", "path") and rng.chance(0.3, "backup"):
             s["backup"] = True
-        if prop in ("C03", "C04", "C10"):
+        if prop in ("C03", "C04", "C10", "C13"):
             s["pretty"] = False
         else:
             s["pretty"] = rng.choice([None, True, False], "pretty")
@@ -959,6 +976,127 @@ class DocEngine:
         self.n_edits += 1
         return []
 
+    # ---- C13 ----------------------------------------------------------------------
+    def _c13_note(self):
+        for e in self.c13_inserted:
+            self.c13_latest[e["key"]] = e
+        self.c13_inserted = []
+
+    def _op_ins_style(self, op):
+        doc, st = self.sut.doc, self.sut.store
+        vs = doc_styles.run_insert(self, op, doc, self._feats())
+        st.touched |= {"content.xml", "styles.xml"}
+        self.n_edits += 1
+        self._outcome = "ins_style:" + (vs[0].oracle if vs else "ok")
+        self._c13_note()
+        return vs
+
+    def _op_ins_style_other(self, op):
+        if self.other is None:
+            return []
+        keep = self.c13_inserted
+        self.c13_inserted = []
+        vs = doc_styles.run_insert(self, op, self.other, ["on_other_document"])
+        self.c13_inserted = keep
+        self._outcome = "ins_style_other:" + (vs[0].oracle if vs else "ok")
+        self.flags.add("other_has_unsaved_styles")
+        return vs
+
+    def _op_open_other(self, op):
+        from odfdo import Document
+
+        kind, name = op["source"].split(":", 1)
+        self.other = Document(name) if kind == "template" else Document(os.path.join(ds.SAMPLES, name))
+        self.flags.discard("other_has_unsaved_styles")
+        self._outcome = "open_other"
+        return []
+
+    def _op_merge(self, op):
+        if self.other is None:
+            return []
+        doc, st = self.sut.doc, self.sut.store
+        vs = doc_styles.run_merge(self, op, doc, self.other, self._feats())
+        st.touched |= {"content.xml", "styles.xml", ds.MANIFEST}
+        for n in doc.container._Container__parts:  # inspection only: files the merge brought in
+            if n not in st.names() and doc.container._Container__parts[n] is not None:
+                st.over[n] = doc.container._Container__parts[n]
+        self.n_edits += 1
+        self._outcome = "merge:" + (vs[0].oracle if vs else "ok")
+        # the other document's definitions win: forget what they replaced
+        try:
+            pop = doc_styles.population(doc)
+            self.c13_latest = {k: e for k, e in self.c13_latest.items() if pop.get(k) == [e["c14n"]]}
+        except Exception:
+            self.c13_latest = {}
+        return vs
+
+    def _op_page_break_style(self, op):
+        doc, st = self.sut.doc, self.sut.store
+        feats = self._feats()
+        try:
+            doc.add_page_break_style()
+            p1 = doc_styles.population(doc)
+            doc.add_page_break_style()
+            p2 = doc_styles.population(doc)
+        except Exception as e:
+            return [Violation("C13", "page-break-style-raises", "page_break_style", feats, type(e).__name__, str(e))]
+        st.touched |= {"content.xml", "styles.xml"}
+        self._outcome = "page_break_style"
+        key = ("styles", "office:styles", "style:style", "paragraph", "odfdopagebreak")
+        if len(p1.get(key, [])) != 1:
+            return [Violation("C13", "wrong-container", "page_break_style", feats, None, f"{len(p1.get(key, []))} definitions of {key}")]
+        if p1 != p2:
+            return [Violation("C13", "not-idempotent", "page_break_style", feats, None, "a second add_page_break_style changed the styles")]
+        v = doc_styles.check_lookup(doc, "paragraph", "odfdopagebreak", False, p1[key][0], feats, "page_break_style")
+        return [v] if v else []
+
+    def _op_table_displayed(self, op):
+        doc, st = self.sut.doc, self.sut.store
+        feats = self._feats()
+        try:
+            tables = doc.body.get_tables()
+            if not tables:
+                return []
+            before = doc_styles.population(doc)
+            doc.set_table_displayed(0, op["displayed"])
+            after = doc_styles.population(doc)
+        except Exception as e:
+            return [Violation("C13", "set_table_displayed-raises", "table_displayed", feats, type(e).__name__, f"{type(e).__name__}: {e}")]
+        st.touched |= {"content.xml", "styles.xml"}
+        self._outcome = "table_displayed"
+        for k, v in after.items():
+            if len(v) > 1:
+                return [Violation("C13", "duplicate", "table_displayed", feats, None, f"{len(v)} definitions of {k}")]
+        for k, v in before.items():
+            if after.get(k) != v:
+                return [Violation("C13", "other-style-changed", "table_displayed", feats, None, f"{k} changed")]
+        name = doc.body.get_tables()[0].style
+        got = doc.get_style("table", name)
+        if got is None:
+            return [Violation("C13", "lookup-misses", "table_displayed", feats, None, f"table style {name!r} not found")]
+        want = "true" if op["displayed"] else "false"
+        props = got.get_properties() or {}
+        if props.get("table:display") != want:
+            return [Violation("C13", "table-display-not-set", "table_displayed", feats, None, f"table:display={props.get('table:display')!r}, expected {want!r}")]
+        return []
+
+    def _op_relookup(self, op):
+        doc = self.sut.doc
+        feats = self._feats()
+        self._outcome = "relookup"
+        try:
+            pop = doc_styles.population(doc)
+        except Exception:
+            return []
+        for k, e in sorted(self.c13_latest.items(), key=repr):
+            if pop.get(k) != [e["c14n"]]:
+                return [Violation("C13", "style-lost-or-duplicated", "relookup", feats + ["family:" + e["family"]], None, f"{k}: {len(pop.get(k, []))} definitions, the inserted one {'present' if e['c14n'] in pop.get(k, []) else 'absent'}")]
+            v = doc_styles.check_lookup(doc, e["family"], e["name"], e["default"], e["c14n"], feats + ["family:" + e["family"]], "relookup")
+            if v:
+                return [v]
+        self.stats.probe("relookup_checked", len(self.c13_latest))
+        return []
+
     def _op_set_part_many(self, op):
         """many new parts at once (size knob: more parts in memory than members in the source)"""
         doc, st = self.sut.doc, self.sut.store
@@ -1231,7 +1369,7 @@ class DocEngine:
         self.n_saves += 1
         st.touched |= post_touched
         # ---- artefact
-        art = {"packaging": pk, "expected": expected, "mimetype": st.mimetype, "feats": feats}
+        art = {"packaging": pk, "expected": expected, "mimetype": st.mimetype, "feats": feats, "c13_latest": dict(self.c13_latest)}
         if tkind == "bytesio":
             art["data"] = given.getvalue()
         else:
@@ -1345,6 +1483,10 @@ class DocEngine:
         self.n_reopen += 1
         self.flags = set()
         self._after_open(op)
+        if self.prop == "C13":
+            self.flags.add("reopened")
+            self.c13_latest = dict(art.get("c13_latest", {}))  # what had been inserted when that artefact was written
+            return self._op_relookup(op)
         self.stats.probe("env:reopen-" + how)
         if how in ("folder", "folderpath") and op.get("salt"):
             self.stats.probe("env:listing-order")
